@@ -59,6 +59,45 @@ example : ∃ m, join ⟨[⟨6, none, none, 1, 0, 0, none⟩, ⟨0, none, none, 
   refine ⟨⟨[⟨6, none, none, 1, 0, 0, none⟩, ⟨8, none, none, 1, -1, 0, none⟩], [⟨0, 1, 1, 1⟩]⟩, ?_, rfl, rfl, ?_⟩ <;>
     decide +kernel
 
+/-- "(total charge and multiplicity follow)" through a nested fragment: `join` removes exactly the two attachment
+atoms, so the total charge of the product is the sum of the two totals minus the formal charges of the two removed
+atoms, and the radical count (multiplicity − 1) likewise — no charge or radical of a surviving atom is lost,
+doubled or moved. -/
+theorem join_charge_mult (m₁ m₂ m : Mol) (p q : Nat) (h : join m₁ m₂ p q = some m) :
+    ∃ (hp : p < m₁.atoms.length) (hq : q < m₂.atoms.length),
+      m.charge + (m₁.atoms[p]).charge + (m₂.atoms[q]).charge = m₁.charge + m₂.charge ∧
+      m.mult + (m₁.atoms[p]).spin + (m₂.atoms[q]).spin + 1 = m₁.mult + m₂.mult := by
+  unfold join at h
+  split at h
+  · split at h
+    · rename_i hc
+      obtain ⟨hp, hq, _, _⟩ := hc
+      simp only [Option.some.injEq] at h
+      subst h
+      refine ⟨hp, hq, ?_, ?_⟩
+      · simp only [Mol.charge, Mol.delAtom, List.map_append, List.sum_append]
+        have h1 := Molli.Lemmas.Cdxml.sum_map_eraseIdx_int (·.charge) m₁.atoms p hp
+        have h2 := Molli.Lemmas.Cdxml.sum_map_eraseIdx_int (·.charge) m₂.atoms q hq
+        omega
+      · simp only [Mol.mult, Mol.delAtom, List.map_append, List.sum_append]
+        have h1 := Molli.Lemmas.Cdxml.sum_map_eraseIdx_nat (·.spin) m₁.atoms p hp
+        have h2 := Molli.Lemmas.Cdxml.sum_map_eraseIdx_nat (·.spin) m₂.atoms q hq
+        omega
+    · simp at h
+  · simp at h
+
+/-- the usual drawing: place-holder and attachment point carry neither charge nor radical — then the total charge
+is the sum of the totals and the radical counts add up (a doublet skeleton with a doublet label is a triplet). -/
+theorem join_charge_mult_neutral (m₁ m₂ m : Mol) (p q : Nat) (h : join m₁ m₂ p q = some m)
+    (hp0 : ∀ hp : p < m₁.atoms.length, (m₁.atoms[p]).charge = 0 ∧ (m₁.atoms[p]).spin = 0)
+    (hq0 : ∀ hq : q < m₂.atoms.length, (m₂.atoms[q]).charge = 0 ∧ (m₂.atoms[q]).spin = 0) :
+    m.charge = m₁.charge + m₂.charge ∧ m.mult + 1 = m₁.mult + m₂.mult := by
+  obtain ⟨hp, hq, hc, hm⟩ := join_charge_mult m₁ m₂ m p q h
+  obtain ⟨c1, s1⟩ := hp0 hp
+  obtain ⟨c2, s2⟩ := hq0 hq
+  rw [c1, c2] at hc; rw [s1, s2] at hm
+  constructor <;> omega
+
 /-- a whole fragment with its nested fragments (each already evaluated): every nested fragment contributes its
 atoms minus two (its attachment point and the place-holder) and its bonds minus one. -/
 theorem nested_counts (done : List (Option Mol)) (f : RawFrag) (r : Mol) (h : evalFrag done f = some r) :
